@@ -156,6 +156,7 @@ class HookWorld(session.World):
             ref = Required(int)
 
         self.A, self.B = A, B
+        self.links = rel in ('m2m', 'mix')
         db.bind('sqlite', path, create_db=True, factory=make_connection_class(log))
         db.generate_mapping(create_tables=True)
         self.session = None
@@ -205,6 +206,7 @@ def run_mode(ctx, shape, mode, graph, nbeh, seed):
                 problems.append((bad, list(log.events)))
         elif op in ('Rollback', 'EndExc') or out == 'Integrity':
             log.pending_log_rows = 0
+            log.mark = len(log.events)      # statements of a transaction that was rolled back say nothing about the rows
 
     def on_behaviour(what, trace):
         if what == 'begin':
